@@ -20,7 +20,7 @@ package main
 //@   spec chars.smt2 hashstate.smt2
 //@   hooks hasher
 //@   requires len(salt) > 0 && name != ""
-//@   requires spec.IsURLNoPad(nameBase64)
+//@   fact @init-nameBase64: spec.IsURLNoPad(nameBase64)
 //@   assigns sumBuffer, b64NameBuffer, ghost wr
 //@   deterministic @pure-function: in salt, flagSeed.bytes, name
 //@   ensures @hash-input: wr[hasher] == spec.HWriteS(spec.HWriteS(spec.HWriteS(spec.HEmpty(), old(str(salt))), old(str(flagSeed.bytes))), name)
@@ -136,7 +136,7 @@ package main
 //@   spec chars.smt2 hashstate.smt2
 //@   hooks hasher
 //@   requires name != "" && pkg != nil
-//@   requires spec.IsURLNoPad(nameBase64)
+//@   fact @init-nameBase64: spec.IsURLNoPad(nameBase64)
 //@   assigns sumBuffer, b64NameBuffer, ghost wr
 //@   ensures @length: 6 <= len(r0) && len(r0) <= 12
 //@   ensures @alphabet: forall i int :: 0 <= i && i < len(r0) ==> spec.IdentChar(r0[i])
@@ -144,6 +144,7 @@ package main
 //@   ensures @export-preserved: token.IsIdentifier(name) ==> (spec.IsUpper(r0[0]) <==> token.IsExported(name))
 //@   ensures @seeded-hash-input: len(flagSeed.bytes) > 0 ==> wr[hasher] == spec.HWriteS(spec.HWriteS(spec.HWriteS(spec.HEmpty(), pkg.ImportPath+"|"), old(str(flagSeed.bytes))), name)
 //@   ensures @unseeded-hash-input: len(flagSeed.bytes) == 0 ==> wr[hasher] == spec.HWriteS(spec.HWriteS(spec.HWriteS(spec.HEmpty(), old(str(pkg.GarbleActionID[:]))), old(str(flagSeed.bytes))), name)
+//@   deterministic @function-of-seed-path-actionid-name: in flagSeed.bytes, pkg.ImportPath, pkg.GarbleActionID, name
 //@   deterministic @seeded-name-from-seed-path-name: when len(flagSeed.bytes) > 0 in flagSeed.bytes, pkg.ImportPath, name
 //@   deterministic @unseeded-name-from-action-id: when len(flagSeed.bytes) == 0 in flagSeed.bytes, pkg.GarbleActionID, name
 //@ end
@@ -153,12 +154,13 @@ package main
 //@   spec chars.smt2 hashstate.smt2 garbleflags.smt2
 //@   hooks hasher
 //@   requires field.Name() != "" && sharedCache != nil && len(sharedCache.BinaryContentID) > 0
-//@   requires spec.IsURLNoPad(nameBase64)
+//@   fact @init-nameBase64: spec.IsURLNoPad(nameBase64)
 //@   assigns sumBuffer, b64NameBuffer, ghost wr
 //@   ensures @length: 6 <= len(r0) && len(r0) <= 12
 //@   ensures @alphabet: forall i int :: 0 <= i && i < len(r0) ==> spec.IdentChar(r0[i])
 //@   ensures @first-not-digit: !spec.IsDigit(r0[0])
 //@   ensures @export-preserved: token.IsIdentifier(field.Name()) ==> (spec.IsUpper(r0[0]) <==> token.IsExported(field.Name()))
+//@   deterministic @function-of-shape-name-and-garble-inputs: in flagSeed.bytes, typeutil_hash(strct), field.Name(), sharedCache.BinaryContentID, sharedCache.GOGARBLE, flagLiterals, flagTiny, flagControlFlow, literals.TestObfuscator
 //@   deterministic @seeded-field-from-seed-shape-name: when len(flagSeed.bytes) > 0 in flagSeed.bytes, typeutil_hash(strct), field.Name()
 //@   deterministic @unseeded-field-from-shape-and-garble-inputs: when len(flagSeed.bytes) == 0 in flagSeed.bytes, typeutil_hash(strct), field.Name(), sharedCache.BinaryContentID, sharedCache.GOGARBLE, flagLiterals, flagTiny, flagControlFlow, literals.TestObfuscator
 //@ end
@@ -229,6 +231,7 @@ package main
 //@ func loadDebugArtifactsForPkg
 //@   property C07
 //@   hooks cachemiss
+//@   assigns ghost lastGetErr, ghost merged, ghost anyErr
 //@   ensures @unreadable-entry-is-a-miss-not-an-error: lastGetErr ==> !r1 && r2 == nil
 //@ end
 
@@ -264,4 +267,173 @@ package main
 //@   spec hashstate.smt2
 //@   hooks hasher
 //@   ensures @key: forall j int :: 0 <= j && j < 32 ==> r0[j] == spec.ShaByte(spec.HWriteS(spec.HWriteS(spec.HWriteS(spec.HEmpty(), old(str(garbleActionID[:]))), "\x00debugdir-cache-v1\x00"), kind), j)
+//@ end
+
+// ---- C19 / C17 / C18: garble writes and removes only what it owns ----
+// may[p]: this process may create, overwrite or remove p: it is (under) a directory made by
+// os.MkdirTemp here, or the -debugdir target after the ownership test.
+// marker[p]: os.Lstat(p) succeeded. envShared: the value of GARBLE_SHARED in this process.
+
+//@ ghost may map[string]bool
+//@ ghost marker map[string]bool
+//@ ghost envShared string
+//@ ghost parent map[string]string
+//@ ghost wroteOutsideOwned bool
+
+//@ hookset fs
+//@ hook after os.MkdirTemp(dir, pattern) (name, err)
+//@   if err == nil { may[name] = true }
+//@ hook after path/filepath.Join(a, b) (r)
+//@   parent[r] = a
+//@   if may[a] || marker[filepath.Join(a, ".garble-debugdir")] { may[r] = true }
+//@ hook after os.ReadDir(p) (entries, err)
+//@   if errors.Is(err, fs.ErrNotExist) || (err == nil && len(entries) == 0) { may[p] = true }
+//@ hook after os.Lstat(p) (fi, err)
+//@   if err == nil { marker[p] = true }
+//@ hook after os.Unsetenv(k) (err)
+//@   if k == "GARBLE_SHARED" { envShared = "" }
+//@ hook after os.Setenv(k, v) (err)
+//@   if k == "GARBLE_SHARED" { envShared = v }
+//@ hook after os.Getenv(k) (v)
+//@   if k == "GARBLE_SHARED" { assume(v == envShared) }
+//@ hook before os.RemoveAll(p)
+//@   assert("removes-only-what-this-process-owns", p == "" || may[p] || marker[filepath.Join(p, ".garble-debugdir")])
+//@ hook before os.Remove(p)
+//@   assert("removes-only-what-this-process-owns", may[p])
+//@ hook before os.MkdirAll(p, perm)
+//@   assert("creates-only-under-owned-directories", may[p] || marker[filepath.Join(p, ".garble-debugdir")])
+//@ hook before os.WriteFile(p, data, perm)
+//@   assert("writes-only-under-owned-directories", may[p] || may[parent[p]] || marker[filepath.Join(parent[p], ".garble-debugdir")])
+//@ hook before os.OpenFile(name, flag, perm)
+//@   assert("files-are-created-exclusively", flag == os.O_RDWR|os.O_CREATE|os.O_EXCL)
+//@   assert("creates-only-under-owned-directories", may[name])
+//@ hook before mvdan.cc/garble.writeFileExclusive(name, data)
+//@   assert("writes-only-under-owned-directories", may[name])
+//@ hook before mvdan.cc/garble.writeDebugDirFile(subdir, pkg, rel, content)
+//@   assert("debugdir-owned-before-use", may[flagDebugDir] || marker[filepath.Join(flagDebugDir, ".garble-debugdir")])
+//@ end
+
+//@ func createExclusive
+//@   property C17 C19
+//@   hooks fs
+//@   requires may[name]
+//@   assigns nothing
+//@ end
+
+//@ func writeFileExclusive
+//@   property C17 C19
+//@   hooks fs
+//@   requires may[name]
+//@   assigns nothing
+//@ end
+
+//@ func saveSharedCache
+//@   property C17 C18 C19
+//@   hooks fs
+//@   may_panic when sharedCache == nil
+//@   assigns ghost may, ghost parent
+//@   ensures @fresh-owned-dir: r1 == nil ==> may[r0]
+//@   ensures @may-only-grows: forall q string :: old(may[q]) ==> may[q]
+//@ end
+
+//@ func writeDebugDirFile
+//@   property C19
+//@   hooks fs
+//@   assigns ghost may, ghost parent
+//@   requires may[flagDebugDir] || marker[filepath.Join(flagDebugDir, ".garble-debugdir")]
+//@   ensures @may-only-grows: forall q string :: old(may[q]) ==> may[q]
+//@ end
+
+//@ func toolexecCmd
+//@   property C19 C18 C20 C02
+//@   hooks fs
+//@   spec goflags.smt2
+//@   maxpaths 4000
+//@   assigns *, ghost may, ghost marker, ghost envShared, ghost parent
+//@   ensures @env-names-only-an-owned-dir: envShared == "" || may[envShared]
+//@ end
+
+//@ ghost linkPatched bool
+
+//@ hookset linkrun
+//@ hook after mvdan.cc/garble/internal/linker.PatchLinker(a, b, c, d) (p, u, err)
+//@   if err == nil { linkPatched = true }
+//@ hook before (*os/exec.Cmd).Run(cmd)
+//@   assert("patched-linker-runs-while-its-lock-is-held", !linkPatched || lockHeld)
+//@ end
+
+//@ func mainErr
+//@   property C19 C17
+//@   hooks fs linkrun linker
+//@   maxpaths 4000
+//@   requires !lockHeld && !everLocked && unlocks == 0 && !built && !stamped && !linkPatched
+//@   ensures @lock-released-once-after-the-link: linkPatched ==> !lockHeld && unlocks == 1
+//@   ensures @no-lock-leak: !lockHeld
+//@ end
+
+//@ func commandReverse
+//@   property C19
+//@   hooks fs
+//@   maxpaths 4000
+//@   skip safety call-requires
+//@ end
+
+//@ func commandMap
+//@   property C19
+//@   hooks fs
+//@   maxpaths 4000
+//@   skip safety call-requires
+//@ end
+
+//@ func (*transformer).writeSourceFile
+//@   property C19 C17 C02
+//@   hooks fs
+//@   requires may[sharedTempDir] && tf != nil && tf.curPkg != nil && tf.curPkg.ImportPath != ""
+//@   requires flagDebugDir != "" ==> may[flagDebugDir] || marker[filepath.Join(flagDebugDir, ".garble-debugdir")]
+//@ end
+
+//@ func restoreDebugArtifactsForPkg
+//@   property C19
+//@   hooks fs
+//@   requires may[flagDebugDir] || marker[filepath.Join(flagDebugDir, ".garble-debugdir")]
+//@   skip safety
+//@   loop 0
+//@     invariant may[flagDebugDir] || marker[filepath.Join(flagDebugDir, ".garble-debugdir")]
+//@   loop 1
+//@     invariant may[flagDebugDir] || marker[filepath.Join(flagDebugDir, ".garble-debugdir")]
+//@ end
+
+// ---- C14 / C01 / C13: what a package is called in the obfuscated build ----
+
+//@ func (*listedPackage).obfuscatedPackageName
+//@   property C14 C01 C13
+//@   spec chars.smt2 hashstate.smt2
+//@   hooks hasher
+//@   requires p != nil && p.Name != ""
+//@   assigns sumBuffer, b64NameBuffer, ghost wr
+//@   ensures @plain-package-keeps-its-name: !p.ToObfuscate ==> r0 == p.Name
+//@   ensures @main-keeps-its-name: p.Name == "main" ==> r0 == "main"
+//@   ensures @hashed-otherwise: p.ToObfuscate && p.Name != "main" ==> r0 == old(hashWithPackage(p, p.Name))
+//@ end
+
+//@ func (*listedPackage).obfuscatedSourceDir
+//@   property C14 C02 C13
+//@   spec chars.smt2 hashstate.smt2
+//@   hooks hasher
+//@   requires p != nil && p.ImportPath != ""
+//@   assigns sumBuffer, b64NameBuffer, ghost wr
+//@   ensures @hashed-directory: r0 == old(hashWithPackage(p, p.ImportPath))
+//@   ensures @plain-package-keeps-its-directory: [C14] !p.ToObfuscate ==> r0 == p.ImportPath
+//@ end
+
+//@ func (*listedPackage).obfuscatedImportPath
+//@   property C14 C01 C13 C02
+//@   spec chars.smt2 hashstate.smt2
+//@   hooks hasher
+//@   requires p != nil && p.ImportPath != ""
+//@   assigns sumBuffer, b64NameBuffer, ghost wr
+//@   ensures @main-is-main: p.Name == "main" && p.ForTest == "" ==> r0 == "main"
+//@   ensures @plain-package-keeps-its-path: !(p.Name == "main" && p.ForTest == "") && !p.ToObfuscate ==> r0 == p.ImportPath
+//@   ensures @toolchain-known-paths-kept: p.ImportPath == "runtime" || p.ImportPath == "reflect" || p.ImportPath == "embed" || has(compilerIntrinsics, p.ImportPath) || has(runtimeAndLinknamed, p.ImportPath) ==> r0 == p.ImportPath || r0 == "main"
+//@   ensures @hashed-otherwise: p.ToObfuscate && !(p.Name == "main" && p.ForTest == "") && !(p.ImportPath == "runtime" || p.ImportPath == "reflect" || p.ImportPath == "embed" || p.ImportPath == "internal/runtime/syscall/linux" || p.ImportPath == "internal/runtime/syscall/windows" || p.ImportPath == "internal/runtime/startlinetest" || has(compilerIntrinsics, p.ImportPath) || has(runtimeAndLinknamed, p.ImportPath)) ==> r0 == old(hashWithPackage(p, p.ImportPath))
 //@ end
